@@ -162,6 +162,29 @@ class CardMonitor(Monitor):
         self.prev = self.snap(st)
 
 
+def replenish_refused(world, crash):
+    """An engine-chosen burn or deal was refused for lack of cards although deck + burns + muck + discards hold
+    enough cards that are not in play: the deck was not replenished when it ran out."""
+    if 'not enough cards' not in str(crash.exc) or world.in_call is None:
+        return None
+    name, args = world.in_call
+    st = world.state
+    if name == 'burn_card' and not args:
+        need = 1
+    elif name == 'deal_hole' and (not args or isinstance(args[0], int)):
+        need = args[0] if args else 1
+    elif name == 'deal_board' and (not args or isinstance(args[0], int)):
+        need = args[0] if args else (st.board_dealing_count or 1)
+    else:
+        return None
+    have = len(st.deck_cards) + len(st.burn_cards) + len(st.mucked_cards) + sum(len(d) for d in st.discarded_cards)
+    if have >= need:
+        return (f'{name}{tuple(args)} was refused ("{crash.exc}") although {have} cards are not in play: deck '
+                f'{len(st.deck_cards)}, burns {len(st.burn_cards)}, muck {len(st.mucked_cards)}, discards '
+                f'{[len(d) for d in st.discarded_cards]}; {need} needed')
+    return None
+
+
 def run(ch, ctx):
     bias = dict(BIAS)
     exhaust = ch.chance('c06.exhaust', 1, 2)
@@ -193,7 +216,16 @@ def run(ch, ctx):
         if exhaust and family_draw:
             pass
         world.run()
-    except (Violation, EngineCrash, Stuck):
+    except EngineCrash as c:
+        if world is not None:
+            note_trace(world, ctx)
+            refused = replenish_refused(world, c)
+            if refused:
+                raise Violation('C06.replenish', refused, rule='replenish_refused')
+        else:
+            ctx.notes['config'] = cfg
+        raise
+    except (Violation, Stuck):
         if world is not None:
             note_trace(world, ctx)
         else:
